@@ -343,6 +343,27 @@ func c06Boundary(c *rt.Ctx, entries []c06Entry, L int) {
 			}
 		}
 	}
+	// multi-byte characters whose lead byte sits just before, on and just behind the last slot of a
+	// completely filled read (stream offsets 510, 1022, ...): as a string value, an object key, a
+	// struct's string member and an array element
+	if L == 511 || L == 1023 || L == 2047 {
+		for _, ch := range []string{"\u00e9", "\u20ac", "\U0001F600", "\xe2\x82", "\xf0\x9f\x98"} {
+			for off := -5; off <= 1; off++ {
+				lead := L + off // stream offset of the character's lead byte
+				forms := []struct{ head, tail string }{{`"`, `tail"`}, {`{"`, `k":1}`}, {`{"b":"`, `","a":1}`}, {`["`, `",2]`}, {`{"M":{"`, `":"v"}}`}}
+				for _, f := range forms {
+					if lead < len(f.head) {
+						continue
+					}
+					text := f.head + pad(lead-len(f.head), "p") + ch + f.tail
+					if !c06RunTimed(c, sub, entries, []byte(text), fmt.Sprintf("boundary:multibyte lead-byte-offset=%d", lead)) {
+						return
+					}
+					sub++
+				}
+			}
+		}
+	}
 	// texts of exactly L bytes that end inside a token, with fresh and with grown pooled buffers
 	// (the scratch copies of the utilities have capacity 1024, then what append grows them to)
 	const bs = "\\"
